@@ -270,6 +270,8 @@ def install(I):
         if not I.fork_bool(simp_bool(form), 'unmarshal-priv'):
             return (None, mk_error(I, 'unmarshal private key failed'))
         ktype = z3.simplify(z3.Extract(31, 0, u64_of_term(kt)))
+        I.add(kt == u64term(ktype))  # the key-type field is a 32-bit enum in canonical encoding
+        I.add(T.blen(s) >= 0)
         return (mk_priv(I, s, ktype if not z3.is_bv_value(ktype) else ktype.as_long()), None)
 
     def marshal_pub(I, args, ins):
@@ -286,6 +288,7 @@ def install(I):
         if not I.fork_bool(simp_bool(form), 'unmarshal-pub'):
             return (None, mk_error(I, 'unmarshal public key failed'))
         ktype = z3.simplify(z3.Extract(31, 0, u64_of_term(kt)))
+        I.add(kt == u64term(ktype))
         I.add(T.blen(raw) >= 0)
         return (mk_pub(I, raw, ktype if not z3.is_bv_value(ktype) else ktype.as_long()), None)
 
